@@ -51,6 +51,24 @@ class Custom(nn.Module):
         return self.block(self.first(x))
 
 
+class ScaledInitLinear(nn.Linear):
+    """A user subclass that only customises initialisation."""
+
+    def reset_parameters(self):
+        super().reset_parameters()
+        with torch.no_grad():
+            self.weight.mul_(0.5)
+
+
+class SamePadConv2d(nn.Conv2d):
+    def __init__(self, cin, cout, k, **kw):
+        super().__init__(cin, cout, k, padding=k // 2, **kw)
+
+
+class MyLayerNorm(nn.LayerNorm):
+    pass
+
+
 def rand_conv(rng):
     groups = int(rng.choice([1, 1, 2, 3]))
     cin, cout = groups * int(rng.integers(1, 4)), groups * int(rng.integers(1, 4))
@@ -74,7 +92,17 @@ def rand_conv(rng):
 
 
 def rand_leaf(rng):
-    c = rng.integers(10)
+    c = rng.integers(12)
+    if c >= 10:
+        # subclasses of the eligible classes are eligible too (isinstance), e.g. MultiheadAttention.out_proj
+        k = rng.integers(4)
+        if k == 0:
+            return ScaledInitLinear(int(rng.choice([8, 16, 33])), int(rng.choice([2, 8])))
+        if k == 1:
+            return nn.modules.linear.NonDynamicallyQuantizableLinear(int(rng.choice([8, 16])), int(rng.choice([4, 8])))
+        if k == 2:
+            return SamePadConv2d(int(rng.integers(1, 4)), int(rng.integers(1, 4)), int(rng.choice([1, 3])))
+        return MyLayerNorm(int(rng.choice([4, 8])))
     if c < 3:
         return nn.Linear(int(rng.choice([1, 3, 8, 16, 33, 64, 160, 256])), int(rng.choice([1, 2, 5, 8, 16])),
                          bias=bool(rng.random() < 0.7))
